@@ -48,15 +48,18 @@ TRUSTED = [
     'attach, upward maximum propagation, fix-up) refines st_insert: abstraction (in-order key/payload list) of the result '
     '= old abstraction with the new pair at the sorted position, invariant preserved; the query on a tree satisfying the '
     'invariant returns a maximum m with (not m > g) = visible_q of the abstraction; _rb_delete_fixup and _delete_from_tree '
-    '(successor copy included) preserve links / in-order sequence / key order and refine del_key on the abstraction. '
+    '(successor copy included) preserve links / in-order sequence / key order and refine del_key on the abstraction; '
+    'the same for the ONE-SIDED maximum invariant WGood (no cached maximum above its subtree maximum): implied by the '
+    'two-sided one, preserved by rotations / insert fix-up / _insert_into_tree, sufficient for the query theorem. '
     'REFUTED (Example C05_tree_delete_max_not_preserved, and observed on the real arrays): _delete_from_tree does NOT '
     're-establish "cached maximum = subtree maximum" — the skip conditions of the loop at viewshed.py:665-697 leave '
     'ancestors\' maxima too LOW; harmless for the result because phase 2 of the query walks every nearer node (only the '
     'shortcut is lost); the harmful direction (cached maximum ABOVE every subtree value) was never observed (checked on '
     'the real arrays on every run, in the bounded theorem through the queries) but its impossibility is NOT proved. So '
     'the composite statement "the concrete tree refines the abstract status structure for every operation sequence" '
-    '(Props tree_refines_status_full_statement / rbtree_refines_status_statement) stays unclaimed: after a delete the '
-    'query theorem\'s premise (two-sided maximum invariant) is not available; covered by the bounded theorem '
+    '(Props tree_refines_status_full_statement / rbtree_refines_status_statement) stays unclaimed: the single missing '
+    'link is "_delete_from_tree preserves the one-sided maximum invariant WGood" (premise of C05_tree_query_refines_weak); '
+    'covered by the bounded theorem '
     'C05_bounded_tree_refines_small and by correspondence (real tree vs concrete model row by row; real tree vs abstract '
     'structure)',
     'premises of the tree theorems: > on gradients is a strict weak order on the whole gradient type (asymmetric, '
@@ -92,11 +95,13 @@ PARTIAL = [
     'implements the abstract status structure for EVERY operation sequence): stated in PropsTree.v / Props.v, unclaimed. '
     'Proved per operation (PropsTree.v): C05_tree_left_rotate_preserves, C05_tree_right_rotate_preserves, '
     'C05_tree_insert_fixup_preserves, C05_tree_insert_refines, C05_tree_query_refines, C05_tree_delete_fixup_preserves, '
-    'C05_tree_delete_refines — all partial correctness (conditional on the model returning: no out-of-bounds guard, fuel not '
+    'C05_tree_delete_refines, and for the one-sided maximum invariant C05_tree_weak_invariant_rotations, '
+    'C05_tree_insert_refines_weak, C05_tree_query_refines_weak — all partial correctness (conditional on the model returning: no out-of-bounds guard, fuel not '
     'exhausted; fuel sufficiency and red-black balance are not proved). The gap that prevents composing them over sequences '
     'with deletes: C05_tree_delete_refines covers links / order / abstraction only, because the two-sided cached-maximum '
     'invariant is false after _delete_from_tree (Example C05_tree_delete_max_not_preserved); what the query really needs is '
-    'the one-sided invariant (no cached maximum above its subtree maximum), whose preservation by delete is NOT proved. '
+    'the one-sided invariant WGood (no cached maximum above its subtree maximum: proved sufficient for the query, proved '
+    'preserved by rotations, fix-up and insert), whose preservation by _delete_from_tree is NOT proved. '
     'Bounded: C05_bounded_tree_refines_small (vm_compute, integer instance: every sequence of <= 6 inserts/deletes, keys '
     '1..5, gradients {0,1}; in-order sequence = sorted abstract status and 14 queries after every prefix)',
     'C05_sweep_eq_spec is conditional on the sweep not leaving the modelled domain (result inr _: no duplicate active key, '
@@ -120,10 +125,12 @@ LEVEL_TEXT = ('Proved for all inputs (any grid size, any terrain/observer/height
               '(C05_tree_insert_refines); the query on a tree with the invariant = the abstract two-phase query '
               '(C05_tree_query_refines); _rb_delete_fixup and _delete_from_tree refine del_key on links / order / abstraction '
               '(C05_tree_delete_fixup_preserves, C05_tree_delete_refines). Refuted for the code as written: delete '
-              're-establishes the cached maxima (they can end up too low — harmless, witness in PropsTree.v). Bounded '
+              're-establishes the cached maxima (they can end up too low — harmless, witness in PropsTree.v); therefore the '
+              'insert / rotation / query theorems are also proved for the one-sided invariant "no cached maximum too high" '
+              '(C05_tree_weak_invariant_rotations, C05_tree_insert_refines_weak, C05_tree_query_refines_weak). Bounded '
               '(vm_compute; every sequence of <= 6 inserts/deletes over keys 1..5, gradients {0,1}, 14 queries after every '
               'prefix): concrete tree = abstract status structure (C05_bounded_tree_refines_small). Not proved for all inputs: '
-              'that no cached maximum is ever too high after deletes, hence the composite refinement over operation sequences '
+              'that _delete_from_tree keeps the one-sided invariant, hence the composite refinement over operation sequences '
               '(unclaimed), fuel sufficiency, float rounding facts. Correspondence: viewshed() vs extracted model, visible '
               'mask and angles bit-exact; the jitted tree functions vs the concrete tree model (node arrays row by row, query '
               'floats) and vs the abstract structure; oracles: independent Python reference, cached-maximum check on the '
